@@ -27,6 +27,13 @@ module Z =
        | Zneg y' -> coq_CompOpp (Pos.compare x' y')
        | _ -> Lt)
 
+  (** val leb : coq_Z -> coq_Z -> bool **)
+
+  let leb x y =
+    match compare x y with
+    | Gt -> false
+    | _ -> true
+
   (** val ltb : coq_Z -> coq_Z -> bool **)
 
   let ltb x y =
@@ -51,4 +58,10 @@ module Z =
   let of_nat = function
   | O -> Z0
   | S n0 -> Zpos (Pos.of_succ_nat n0)
+
+  (** val of_N : coq_N -> coq_Z **)
+
+  let of_N = function
+  | N0 -> Z0
+  | Npos p -> Zpos p
  end
